@@ -194,6 +194,32 @@ def mutate(wire, m):
         m2 = dict(m)
         m2.pop('refix')
         return refix_params_digest(mutate(wire, m2))
+    if m['t'] == 'ap2name':
+        # the ApplicationParameters element is moved into the Name (as its last component, in front of the digest): the
+        # bytes the signature covers stay exactly the same, the name and the parameters of the Interest do not
+        try:
+            tree = tlv_tree(wire)
+        except tlvref.TlvError:
+            return wire
+        if len(tree) != 1 or tree[0]['t'] != 0x05 or not tree[0]['kids'] or tree[0]['kids'][0]['t'] != 0x07:
+            return wire
+        kids = tree[0]['kids']
+        name = kids[0]
+        ap = next((k for k in kids if k['t'] == 0x24), None)
+        if ap is None or name['kids'] is None:
+            return wire
+        kids.remove(ap)
+        pos = next((i for i, k in enumerate(name['kids']) if k['t'] == 0x02), len(name['kids']))
+        if pos != len(name['kids']) - 1 and pos != len(name['kids']):
+            return wire             # only when the digest component is last: then the covered bytes keep their order
+        name['kids'].insert(pos, {'t': 0x24, 'v': ap['v'], 'kids': None})
+        # the tamperer recomputes the (unsigned) digest over what now follows the point where the parameters would start
+        dig = next((k for k in name['kids'] if k['t'] == 0x02), None)
+        si = next((i for i, k in enumerate(kids) if k['t'] == 0x2c), None)
+        if dig is not None and si is not None:
+            import hashlib as _h
+            dig['v'] = _h.sha256(tree_bytes(kids[si:])).digest()
+        return tree_bytes(tree)
     if m['t'] == 'namedigest':
         # one more ParametersSha256DigestComponent somewhere in the Name of an Interest (an Interest has at most one)
         try:
@@ -586,6 +612,12 @@ class SigWorld(World):
                     # strictness; the outcome equals stripping the signature, which that front-end permits by design
                     self.ambiguous += 1
                     continue
+                if is_int and recv.sig_info is not None and recv.app_param is None and orig is not None \
+                        and orig.app_param is not None and flow['signer'] not in ('null', 'none'):
+                    self.violate('C02', 'forged-accepted', comp, 'parameters-moved-into-name',
+                                 f'flow {fid}: a signed Interest whose ApplicationParameters element was moved into its Name in '
+                                 f'flight (same covered bytes, other name, no parameters) was accepted')
+                    continue
                 if is_int and recv.n_params_digest > 1 and orig is not None and orig.n_params_digest <= 1 \
                         and flow['signer'] not in ('null', 'none'):
                     self.violate('C02', 'forged-accepted', comp, 'extra-digest-component',
@@ -671,6 +703,8 @@ def rand_mut(rng):
         return {'t': 'sigext', 'hex': rng.choice(['00', '0000', 'ff', '3000', 'deadbeef']), 'refix': True}
     if x < 0.71:
         return {'t': 'namedigest', 'pos': rng.randint(0, 6), 'hex': rng.choice(['', 'ab' * 32, 'cd' * 31]), 'copy': rng.random() < 0.3}
+    if x < 0.75:
+        return {'t': 'ap2name'}
     edit = rng.choice(['dup', 'del', 'swap', 'ins', 'ins', 'retype', 'empty', 'extend', 'shorten'])
     m = {'t': 'tlv', 'edit': edit, 'path': rng.randint(0, 40)}
     if edit == 'extend':
